@@ -295,11 +295,11 @@ def commitMigrate (s : St) (p : MigPlan) (success : Bool) : St :=
   if success && migCurrent s p then applyMigration s p else s
 
 /-- the monolithic `Coordinator::migrate_pipeline` (runs under the write lock, hence atomic):
-plan on the current state, one deploy outcome, bookkeeping -/
+plan on the current state (target must be available), one deploy outcome, bookkeeping -/
 def migrateAtomic (s : St) (g : GId) (n : Name) (target : WId) (deployOk : Bool) : St :=
   match s.getP g n, s.getW target with
-  | some r, some _ =>
-    if s.hasGroup g && deployOk then
+  | some r, some w =>
+    if w.isAvailable && s.hasGroup g && deployOk then
       applyMigration s { gid := g, name := n, source := r.worker, target := target, epoch := r.epoch }
     else s
   | _, _ => s
@@ -413,8 +413,9 @@ def guardFail (s : St) : Step → Option GuardFail
     else none
   | .migrateAtomic g n t ok =>
     match s.getP g n, s.getW t with
-    | some r, some _ =>
-      if s.hasGroup g && ok then (if r.status = .running then none else some .migrateFailedPlacement) else none
+    | some r, some w =>
+      if w.isAvailable && s.hasGroup g && ok then (if r.status = .running then none else some .migrateFailedPlacement)
+      else none
     | _, _ => none
 
 /-- all steps of a history are inside the guards -/
